@@ -383,10 +383,10 @@ impl TerminalHistory {
 /// to be between alphanumeric characters and non-alphanumeric characters. Eg: `abc+def` has word
 /// boundaries directly before and after the `+` character.
 fn find_word_next(string: &str, cursor: usize, full_word: bool) -> usize {
-    let mut chars = string.char_indices().skip(cursor);
+    let mut chars = string.chars().enumerate().skip(cursor);
     // At end of line (covers empty string case)
     let Some((_, first)) = chars.next() else {
-        return string.len();
+        return string.chars().count();
     };
     if first.is_whitespace() {
         // On a space
@@ -419,7 +419,7 @@ fn find_word_next(string: &str, cursor: usize, full_word: bool) -> usize {
     }
     // No next word found
     // Go to end of line
-    string.len()
+    string.chars().count()
 }
 
 /// Return character index of end of the word to the right of cursor. Uses Vim rules.
